@@ -325,6 +325,10 @@ class BlockTr:
             # context managers (th.no_grad(), …) do not change values: the body runs in place
             return self.run(list(s.body) + rest, env)
         if isinstance(s, ast.Return):
+            if isinstance(s.value, ast.Tuple):
+                for k, e in enumerate(s.value.elts):   # `return a, b` -> outputs ret_0, ret_1
+                    env[f"ret_{k}"] = self.expr(env, e)
+                return env
             env["ret"] = self.expr(env, s.value) if s.value is not None else "()"
             return env
         if isinstance(s, (ast.Break, ast.Continue)):
@@ -471,7 +475,7 @@ def extract_block(item):
     generic = (dty is None) and (any(l not in lt for l in leaves) or any(o["type"] == "α" for o in item["outputs"]))
     head = f"def {item['name']} " + (item["type_params"] + " " if item.get("type_params") else "")
     if generic:
-        head += "{α : Type} " + item.get("classes", "[Add α] [Sub α] [Mul α] [Div α] [Neg α] [OfNat α 0] [OfNat α 1] [OfNat α 2]") + " "
+        head += ("" if item.get("alpha_from_section") else "{α : Type} ") + item.get("classes", "[Add α] [Sub α] [Mul α] [Div α] [Neg α] [OfNat α 0] [OfNat α 1] [OfNat α 2]") + " "
     body = outs[0] if len(outs) == 1 else "(" + ",\n   ".join(outs) + ")"
     text = f"{head}{binders} : {rty} :=\n  {body}"
     return text, {"name": item["name"], "kind": "block", "statements": len(stmts), "lean": body, "leaves": leaves,
